@@ -6,6 +6,7 @@ from ..gtlib import cq, cvec, cmat, cb3, cseq, jarr, Obs
 from . import common as C, lin
 
 PROP = "C19"
+WIDEN_MAX = 60          # extra thorough-generator cases when the anchored sources have drifted (harness/drift.py)
 PROPS_FILE = "props/C19.v"
 IMPORTS = "Chol"
 RULE = ("cases = densities (GaussianPDF and GaussianDiagPDF) with R in 1..4, D in 1..4, Sigma = L0 L0' for a rational lower-triangular L0 with positive diagonal "
